@@ -6,7 +6,8 @@ from engine import core
 def run(ctx):
     ctx.rule = ("(a) budget: TLC runs (MC_PSProg, family budget) every control-form program x every budget "
                 "N in 1..MaxBudget in lock step with an unbudgeted twin and checks BudgetTransparent; the "
-                "budgeted behaviours (status, error, NumOps, final state) are replayed with MaxOps=N. "
+                "budgeted behaviours (status, error, NumOps, final state) are replayed with MaxOps=N; the same for programs "
+                "delivered in two Execute calls (family budgetcalls, BudgetSpansCalls). "
                 "(b) limits: recursion shapes against the real limits (MC_PSLimits). (c) %! start check "
                 "(PSStart). distinct = distinct (program, budget) pairs / shapes / prefix histories.")
     ctx.assumptions = ["PSMachine counts operations exactly as the library does (one per dispatched object; a name and "
@@ -20,6 +21,12 @@ def run(ctx):
     pscommon.absorb(ctx, summ, "vh replay-ps (MC_PSProg budget)", "PSMachine!Count / BudgetTransparent")
     pscommon.negative_control(ctx, vec, base)
     ctx.extra["budget_runs"] = summ["vectors"]
+    # (a') the budget spans consecutive Execute calls on one interpreter
+    cb = dict(consts, Family='"budgetcalls"', MaxBudget=str(12 if ctx.tier == "quick" else 24))
+    summ1, _, _ = pscommon.run_mbt(ctx, "MC_PSProg", cb, "psbudgetcalls", base_heap="FreshHeap",
+                                   invariants=("Emit", "Inv", "BudgetSpansCalls"))
+    pscommon.absorb(ctx, summ1, "vh replay-ps (MC_PSProg budgetcalls)", "PSMachine!Count across EndCall / BudgetSpansCalls")
+    ctx.extra["budget_runs_split_in_two_calls"] = summ1["vectors"]
     # (b) recursion and growth shapes against the real limits
     cl = {"Tier": '"quick"', "StepBound": "9000", "MaxBudget": "1", "FeedLen": "1", "Family": '"limits"'}
     summ2, _, _ = pscommon.run_mbt(ctx, "MC_PSProg", cl, "pslimits", base_heap="FreshHeap")
